@@ -14,6 +14,6 @@ fi
 (cd $S && patch -p1 -s < $P) || { echo "PATCH FAILED"; rm -rf /tmp/mut_$$; exit 9; }
 cd /verif
 for c in "$@"; do
-  VERIF_REPO=$S python3 vf/main.py check $c 2>&1 | grep -E "^(VIOLATION|UNDECIDED|C[0-9]+ tier)" | cut -c1-260
+  VERIF_REPO=$S VF_UNIT_CACHE=${VERIF_BUILD:-/verif/build}/unit-cache python3 vf/main.py check $c 2>&1 | grep -E "^(VIOLATION|UNDECIDED|C[0-9]+ tier)" | cut -c1-260
 done
 rm -rf /tmp/mut_$$
